@@ -262,6 +262,13 @@ class _Tree:
             f.write(data)
 
 
+def _reraise_control(e):
+    """pyo3 PanicException derives from BaseException: catch it like an error,
+    but never swallow interpreter control flow"""
+    if isinstance(e, (KeyboardInterrupt, SystemExit, GeneratorExit)):
+        raise e
+
+
 class _quiet_stderr:
     """the compiled rio reader panics on invalid UTF-8 and Rust prints the panic
     message on fd 2; silence fd 2 for the calls where that is expected"""
@@ -328,7 +335,8 @@ def _level_a(ctx, tree, n):
         try:
             wt = tree.open()
             wt.set_conflicts([mk_obj(s) for s in specs])
-        except Exception as e:
+        except BaseException as e:
+            _reraise_control(e)
             ctx.violation(case, "set_conflicts raised %s: %s" % (type(e).__name__, str(e)[:200]))
             continue
         data = tree.raw("conflicts")
@@ -499,7 +507,8 @@ def _level_c(ctx, tree, rounds, real_n):
                             tree=sorted((p, i.hex()) for p, i in stub_map.items()))
                 try:
                     new, sel = C.ConflictList(list(objs)).select_conflicts(_StubTree(stub_map), paths, True, recurse)
-                except Exception as e:
+                except BaseException as e:
+                    _reraise_control(e)
                     ctx.violation(case, "select_conflicts raised %s: %s" % (type(e).__name__, str(e)[:200]))
                     continue
                 new, sel = [obj_spec(c) for c in new], [obj_spec(c) for c in sel]
@@ -536,7 +545,8 @@ def _level_c(ctx, tree, rounds, real_n):
             before_file = tree.raw("conflicts")
             wt = tree.open()
             _mod_conflicts.resolve(wt, paths, ignore_misses=True, recursive=recurse, action="done")
-        except Exception as e:
+        except BaseException as e:
+            _reraise_control(e)
             ctx.violation(case, "resolve raised %s: %s" % (type(e).__name__, str(e)[:200]))
             continue
         after_file = tree.raw("conflicts")
@@ -584,7 +594,8 @@ def _level_d(ctx, tree, n):
             tree.open().set_merge_modified(dict(hashes))
             data = tree.raw("merge-hashes")
             back = tree.open().merge_modified()
-        except Exception as e:
+        except BaseException as e:
+            _reraise_control(e)
             ctx.violation(case, "merge-modified store/read raised %s: %s" % (type(e).__name__, str(e)[:200]))
             continue
         exp = {p: h for p, h in hashes.items() if p in tree.sha and h == tree.sha[p]}
